@@ -875,13 +875,14 @@ fn gen_tl(r: &mut Rng, n: usize, out: &mut dyn Write) {
             let (e1, e2) = match r.below(3) { 0 => ("c12", "c13"), 1 => ("c13", "c11"), _ => ("c11", "c12") };
             let t = r.pick(&[0.5f32, 0.25, 0.75, 0.125]);
             let target = vals_line(r, shape, tame).join(" ");
-            writeln!(out, "{}", mk(e1).line(6)).unwrap();
-            writeln!(out, "upd 6 {} {}", b(t), target).unwrap();
-            writeln!(out, "drop 6").unwrap();
-            writeln!(out, "{}", mk(e2).line(6)).unwrap();
-            writeln!(out, "upd 6 {} {}", b(t), target).unwrap();
+            // (slots 7 and 11 are built on the main thread, like the object they replace: same allocator arena)
+            writeln!(out, "{}", mk(e1).line(7)).unwrap();
+            writeln!(out, "upd 7 {} {}", b(t), target).unwrap();
+            writeln!(out, "drop 7").unwrap();
             writeln!(out, "{}", mk(e2).line(7)).unwrap();
             writeln!(out, "upd 7 {} {}", b(t), target).unwrap();
+            writeln!(out, "{}", mk(e2).line(11)).unwrap();
+            writeln!(out, "upd 11 {} {}", b(t), target).unwrap();
             writeln!(out, "# eq C01 1 3").unwrap();
         }
         // C03 at the level of a built timeline (dyadic configurations): what `reverse` means.  F = the forward timeline
